@@ -99,8 +99,8 @@ Definition holds_kac (c : acase) : bool :=
       let r := map (acorr_sum x) (seq 0 (S p)) in
       yw_ok r a p e
       && Qc_eqb e (energy_full a x)
-      && forallb (fun i => Qc_leb e (energy_full (bump 1 i a) x)
-                           && Qc_leb e (energy_full (bump (- (1)) i a) x)) (seq 1 p)
+      (* two other monic filters of the same order (first and last predictor coefficient moved by 1) *)
+      && ((p =? 0)%nat || Qc_leb e (energy_full (bump 1 1 a) x) && Qc_leb e (energy_full (bump (- (1)) p a) x))
   end.
 
 (* ------------------------------------------------------------------ lpc.kcovar *)
